@@ -7,6 +7,9 @@ COMMON_NOTE = ('python floats are mathematical reals (except clauses marked FP64
                'evidence file are trusted; configuration sizes (phases, elements, list items) are enumerated up to the stated bound, '
                'array lengths / mesh sizes / histories are symbolic (unbounded)')
 P = {
+ 'C19': ('testCondition of all six condition classes x both inequalities executed on a PrecipitateBase object with a symbolic history: reads the monitored value at pData.n of the model it is '
+         'given, latch, interpolated crossing time within [t(n-1), t(n)] (NRA), reset; stop decision of PrecipitateBase.postProcess for every or/and mix of <= 3 conditions; solver-loop stop clause (C05); TTP calculator wiring.',
+         'P, E <= 2; model sub-steps of postProcess are arbitrary callables'),
  'C04': ('Obligations from the real source of the boundary-condition routine, DiffusionModel.getdXdt/postProcess/setup/flatten/unflatten, both _getFluxes and the '
          'real iterators + DESolver._updateX: boundary-face contract for every flux/composition mix, telescoping flux divergence (linear-sum lemma), '
          'per-step mesh-sum balance for Euler and RK4, fixed nodes, clip bounds, setup idempotence and configuration-op frames, for symbolic mesh size.', 'E <= 2 independent components'),
